@@ -76,6 +76,9 @@ class Unit:
         self.trait_extras = {}      # trait -> dict(decl_items, requires{method: [..]}, impl_items(im) -> text)
 
     # ------------------------------------------------------------------
+    def is_crate_trait(self, name):
+        return name in self.src.traits and name not in ('BaseNum', 'BaseFloat') and name not in self.drop_traits
+
     def select(self, *sels):
         self.sels.extend(sels)
 
@@ -196,7 +199,17 @@ class Unit:
             self.table.append((lo, cur_line() - 1, None, 'poly', 'lemma'))
         add('}\n')
         add('} // verus!\nfn main() {}\n')
-        return ''.join(out)
+        text = ''.join(out)
+        from rules import literal_block
+        lb = literal_block(text)
+        if lb:
+            marker = '// ---- types (verbatim from the expansion)'
+            i = text.index(marker)
+            i = text.rfind('verus! {', 0, i)
+            text = text[:i] + lb + text[i:]
+            shift = lb.count('\n')
+            self.table = [(lo + shift, hi + shift, n, o, k) for (lo, hi, n, o, k) in self.table]
+        return text
 
     # ------------------------------------------------------------------
     def strip_generic_bounds(self, g):
@@ -216,7 +229,7 @@ class Unit:
             bounds = []
             if ':' in x:
                 for b in split_top(x.split(':', 1)[1], '+'):
-                    if trait_name(b.strip()) in self.src.traits:
+                    if self.is_crate_trait(trait_name(b.strip())):
                         bounds.append(subst_text(b.strip(), self.subst))
             keep.append(nm + (': ' + ' + '.join(bounds) if bounds else '') + default)
         return '<' + ', '.join(keep) + '>' if keep else ''
@@ -227,13 +240,20 @@ class Unit:
         lo, hi = tr.header_toks
         i = lo + 2
         out = []
+        for it in tr.items:
+            if isinstance(it, Assoc) and it.kind == 'type':
+                txt = norm(src.p.text(it.toks[0], it.toks[1])).rstrip(';')
+                if ':' in txt:
+                    for b in split_top(txt.split(':', 1)[1], '+'):
+                        if self.is_crate_trait(trait_name(b.strip())):
+                            out.append(trait_name(b.strip()))
         if t[i].text == '<':
             j = src.p._skip_angle(i, hi)
             g = norm(src.p.text(i, j))
             for x in split_top(g.strip()[1:-1]):
                 if ':' in x:
                     for b in split_top(x.split('=')[0].split(':', 1)[1], '+'):
-                        if trait_name(b.strip()) in src.traits:
+                        if self.is_crate_trait(trait_name(b.strip())):
                             out.append(trait_name(b.strip()))
         return out
 
@@ -263,7 +283,7 @@ class Unit:
         keep = []
         for b in bounds:
             b = b.strip()
-            if trait_name(b) in src.traits:
+            if self.is_crate_trait(trait_name(b)):
                 keep.append(subst_text(b, self.subst))
         return keep
 
@@ -284,7 +304,13 @@ class Unit:
             body.append('    ' + ex['decl_items'] + '\n')
         for it in tr.items:
             if isinstance(it, Assoc) and it.kind == 'type':
-                body.append('    type %s;\n' % it.name)
+                txt = norm(src.p.text(it.toks[0], it.toks[1])).rstrip(';')
+                bounds = []
+                if ':' in txt:
+                    for b in split_top(txt.split(':', 1)[1], '+'):
+                        if self.is_crate_trait(trait_name(b.strip())):
+                            bounds.append(subst_text(b.strip(), self.subst))
+                body.append('    type %s%s;\n' % (it.name, (': ' + ' + '.join(bounds)) if bounds else ''))
             elif isinstance(it, Fn) and it.name in methods:
                 req = ex.get('requires', {}).get(it.name)
                 decl = self.fn_decl(it, None)
